@@ -30,12 +30,7 @@ func (c *Cluster) finalChecks(spec *runSpec) {
 }
 
 func init() {
-	synthRun := func(c *Cluster, spec *runSpec) {
-		c.synthetic = true
-		c.buildSynthDag(NewRNG(Mix(c.seed, 0x73796e)))
-		c.dagReplay(c.cfg.Variants)
-	}
-	_ = synthRun
+	synthRun := func(c *Cluster, spec *runSpec) { c.synthRun(spec) }
 	profiles["C01"] = &profile{
 		config: func(r *RNG, thorough bool) *RunConfig {
 			cfg := baseConfig("C01", r, thorough)
@@ -87,6 +82,8 @@ func init() {
 				cfg.MaxJoins = r.Range(1, 2)
 				cfg.MaxLeaves = r.Range(0, 1)
 				cfg.Steps += 100
+				// persistent joiners replay blocks of rounds they are not a validator of
+				cfg.PJoinerBadger = 0.6
 			}
 			mixStores(cfg, r, 0.4)
 			if r.Bool(0.4) {
